@@ -34,6 +34,8 @@ CLAIMED = {
          "Every variant of the 7 closed enumerations round-trips in both directions; every keyword of every other enumeration with case, padding and suffix variants and every string of length <=3 (quick) / <=4 (thorough) over 23 symbols must be rejected unless it is in the type's set; checksum records, package-list entries (print determinism across instances), changes files, ParsedVcs/Vcs over all branch/subpath combinations, DEP-3 values with each category prefix (also read through the lossless header), licences, signed-by values and build profiles are generated and round-tripped."),
  "C19": ("reference-model oracle for clear-sign unwrapping: generated messages (payload kinds incl. marker look-alikes and deb822 text), every line truncation with/without final newline, five kinds of trailing junk, unsigned pass-through, every line cut of the repository's InRelease file",
          "For each generated message the unwrapped payload and concatenated signature must equal the generator's parts; every cut after a line must yield exactly the error of the phase the cut falls in (missing payload / missing signature / truncated signature), appended lines must yield junk-after-signature, and text not starting with the marker must come back unchanged with no signature."),
+ "C17": ("reference-model oracle: independent backtracking DEP-5 matcher vs FilesParagraph::matches (lossless and lossy) over exhaustive pattern x path products; generated copyright files x lookups against a last-match/licence-resolution model; non-machine-readable variants",
+         "All patterns of <=2 (quick) / <=3 (thorough) symbols over 19 pattern symbols (literals, regex metacharacters, *, ?, the three escapes, /) are matched against all 1464 paths of <=3 symbols over 11 path symbols and compared with a 10-line reference matcher; generated copyright files (1-6 Files paragraphs, patterns on one or several lines, inline and stand-alone licences in any order) are queried with 20 paths each and find_files / find_license_for_file / iter_files / iter_licenses of both readers compared with the model; six kinds of text not starting with a Format field must be refused by all three readers."),
 }
 TODO = {}
 props = [json.loads(l) for l in open("/verif/properties.jsonl")]
